@@ -948,7 +948,16 @@ func cpTryBuild(r *Rng, cell cpCell) *CopyCase {
 	switch cell.DstState {
 	case "absent":
 	case "file":
-		b.add(Node{Path: D, Kind: 'r', Perm: 0o606, Data: "old-destination"})
+		if r.chance(1, 2) {
+			// the file that is about to be overwritten has a second name: that one must keep the old content
+			b.grp++
+			n := Node{Path: D, Kind: 'r', Perm: 0o606, Data: "old-destination", Group: b.grp}
+			b.add(n)
+			n.Path = B + "/old-second-name"
+			b.try(n)
+		} else {
+			b.add(Node{Path: D, Kind: 'r', Perm: 0o606, Data: "old-destination"})
+		}
 	case "dirE":
 		b.add(Node{Path: D, Kind: 'd', Perm: 0o751})
 	case "dirN":
@@ -980,7 +989,15 @@ func cpTryBuild(r *Rng, cell cpCell) *CopyCase {
 		}
 		switch cell.DstState {
 		case "chainF":
-			b.add(Node{Path: final, Kind: 'r', Perm: 0o606, Data: "old-chain-target"})
+			if r.chance(1, 2) {
+				b.grp++
+				n := Node{Path: final, Kind: 'r', Perm: 0o606, Data: "old-chain-target", Group: b.grp}
+				b.add(n)
+				n.Path = C + "/old-second-name"
+				b.try(n)
+			} else {
+				b.add(Node{Path: final, Kind: 'r', Perm: 0o606, Data: "old-chain-target"})
+			}
 		case "chainD":
 			b.add(Node{Path: final, Kind: 'd', Perm: 0o751})
 			if r.chance(1, 2) {
